@@ -5,6 +5,7 @@ C16.2  first writer wins, once: storeDefinition only under the not-present-and-n
        the definition table has one writer; export copies
 C16.3  the stored body is computed from the named type alone
 """
+import re
 import tsast
 from tsast import walk, s, unparen, method_call
 from rules import ts_common
@@ -278,32 +279,14 @@ def schema_reachable_methods(c):
 
 
 def guarded_by_absence(fn, call, name):
-    """call sits in the consequent of `if (!X.hasDefinition(n) && !X.isDefinitionInProgress(n))`, or after an
-    early `if (X.hasDefinition(n) || X.isDefinitionInProgress(n)) return`"""
-    want_neg = {"hasDefinition", "isDefinitionInProgress"}
-    for n in walk(fn):
-        if n["type"] != "IfStatement":
+    """whenever `call` executes, both X.hasDefinition(name) and X.isDefinitionInProgress(name) are known to be false
+    (however the test is spelled: `if (!a && !b) {..}`, an early `if (a || b) return`, two separate guards, `!(a || b)`)"""
+    ka = ts_common.known_atoms(fn, call)
+    got = set()
+    for atom, val in ka.items():
+        if val is not False:
             continue
-        t = unparen(n["test"])
-        inside = any(x is call for x in walk(n["consequent"]))
-        if inside and t["type"] == "BinaryExpression" and t["operator"] == "&&":
-            got = set()
-            for side in (t["left"], t["right"]):
-                side = unparen(side)
-                if side["type"] == "UnaryExpression" and side["operator"] == "!":
-                    mc = method_call(side["argument"])
-                    if mc and s(mc[2][0]) == name:
-                        got.add(mc[1])
-            if got == want_neg:
-                return True
-        # early return form
-        if t["type"] == "BinaryExpression" and t["operator"] == "||" and n["span"]["end"] <= call["span"]["start"]:
-            got = set()
-            for side in (t["left"], t["right"]):
-                mc = method_call(unparen(side))
-                if mc and s(mc[2][0]) == name:
-                    got.add(mc[1])
-            rets = [x for x in walk(n["consequent"]) if x["type"] == "ReturnStatement"]
-            if got == want_neg and rets:
-                return True
-    return False
+        m = re.match(r"^(.*)\.(hasDefinition|isDefinitionInProgress)\((.*)\)$", atom)
+        if m and m.group(3) == name:
+            got.add(m.group(2))
+    return got == {"hasDefinition", "isDefinitionInProgress"}
